@@ -85,6 +85,10 @@ func optOf(tok, jail string, ctx context.Context) gtree.Option {
 		return gtree.WithNoUseIterOfSimpleOutput()
 	case "massive":
 		return gtree.WithMassive(ctx)
+	case "mcancel":
+		cctx, cancel := context.WithCancel(ctx)
+		cancel()
+		return gtree.WithMassive(cctx)
 	case "brL1":
 		return gtree.WithBranchFormatLastNode("`--", "    ")
 	case "brL2":
